@@ -81,6 +81,25 @@ class FuncRef(namedtuple("FuncRef", "name")):
     __slots__ = ()
 
 
+class ClassRef(namedtuple("ClassRef", "name")):
+    """A reference to an exception class (of the package or a builtin), usable as a value: stored in tables, bound
+    to variables, raised through a variable, tested with isinstance."""
+
+    __slots__ = ()
+
+
+class ExcVal(namedtuple("ExcVal", "colour cls origin")):
+    """The exception object bound by `except ... as e` (class None = any class of that colour)."""
+
+    __slots__ = ()
+
+
+class Closing(namedtuple("Closing", "obj")):
+    """contextlib.closing(obj): a context manager that calls obj.close() on every exit."""
+
+    __slots__ = ()
+
+
 class Opaque(namedtuple("Opaque", "tag")):
     """A value we know nothing about except a tag (e.g. lambda, nested function)."""
 
@@ -348,13 +367,21 @@ class Domain:
         return [("ok", TOP, state), ("exc", Exc(ORD, None, node.lineno), state), ("exc", Exc(ASYNC, None, node.lineno), state)]
 
     def with_enter(self, item, value, state):
+        if isinstance(value, Closing):
+            return [("ok", value.obj, state)]
         out = [("ok", TOP, state)]
         out += self.call_raises(item.context_expr, state)
         return out
 
     def with_exit(self, item, value, kind, state):
         """-> list of ('ok', state, suppress) / ('exc', Exc, state).  kind = body outcome kind."""
+        if isinstance(value, Closing):
+            return [("ok", self.close_value(value.obj, item, state), False)]
         return [("ok", state, False)]
+
+    def close_value(self, obj, item, state):
+        """`obj.close()` performed by contextlib.closing on leaving a with-block."""
+        return state
 
     # ---- operators -------------------------------------------------------
     def binop(self, node, l, r, state):
@@ -425,7 +452,7 @@ class Domain:
         return TOP
 
     def never_none(self, v):
-        return isinstance(v, (TupleV, Opaque)) or (isinstance(v, Const) and v.v is not None) or (isinstance(v, Neq) and v.v is None)
+        return isinstance(v, (TupleV, Opaque, ClassRef, ExcVal, FuncRef)) or (isinstance(v, Const) and v.v is not None) or (isinstance(v, Neq) and v.v is None)
 
     def truth(self, v, state=None):
         if isinstance(v, Const):
@@ -435,7 +462,7 @@ class Domain:
                 return None
         if isinstance(v, TupleV):
             return len(v.items) > 0
-        if isinstance(v, Opaque):
+        if isinstance(v, (Opaque, ClassRef, ExcVal)):
             return True
         return None
 
@@ -725,6 +752,10 @@ class Interp:
             oks, excs = self.ev_seq(list(e.args) + [k.value for k in e.keywords], state, ctx)
             self._emit_excs(o, excs, trace)
             cls = _cls_name(e.func)
+            if isinstance(e.func, ast.Name):
+                fv = self.dom.name_load(e.func.id, state, e.func)
+                if isinstance(fv, ClassRef):
+                    cls = fv.name
             for vals, s in oks:
                 exc = self.mk_exc(cls, st.lineno)
                 s2 = self.dom.on_raise_stmt(st, exc, s)
@@ -737,6 +768,10 @@ class Interp:
             exc = None
             if isinstance(e, ast.Name) and ctx.exc_name == e.id and ctx.cur_exc is not None:
                 exc = ctx.cur_exc
+            if exc is None and isinstance(v, ExcVal):
+                exc = Exc(v.colour, v.cls, v.origin)
+            if exc is None and isinstance(v, ClassRef):
+                exc = self.mk_exc(v.name, st.lineno)
             if exc is None:
                 exc = self.dom.exc_of_value(st, v, s, ctx)
             if exc is None:
@@ -934,7 +969,7 @@ class Interp:
             e_in = narrowed
             s1 = self.dom.on_catch(h, e_in, state)
             if h.name:
-                s1 = self.dom.name_store(h.name, Opaque("exc:%s" % (e_in.cls or e_in.colour)), s1, h)
+                s1 = self.dom.name_store(h.name, ExcVal(e_in.colour, e_in.cls, e_in.origin), s1, h)
             hb = self.block(h.body, [(s1, _tr(trace, "except@%d(%s)" % (h.lineno, e_in)))], ctx.handler(e_in, h.name))
             res.merge(hb)
             if m == "yes":
@@ -1047,7 +1082,33 @@ class Interp:
         return [(Const(e.value), state)], []
 
     def e_Name(self, e, state, ctx):
-        return [(self.dom.name_load(e.id, state, e), state)], []
+        v = self.dom.name_load(e.id, state, e)
+        if v is TOP and self.prog is not None and self._is_exc_class(e.id):
+            v = ClassRef(e.id)
+        return [(v, state)], []
+
+    def _is_exc_class(self, name):
+        if name in self.prog.classes:
+            return "Exception" in self.prog.exception_bases(name) or "BaseException" in self.prog.exception_bases(name)
+        return _is_builtin_exc(name)
+
+    def _isinstance_exc(self, ev, cls_val):
+        """Decide isinstance(<caught exception>, <class or tuple of classes>): True / False / None."""
+        names = []
+        for c in (cls_val.items if isinstance(cls_val, TupleV) else [cls_val]):
+            if not isinstance(c, ClassRef):
+                return None
+            names.append(c.name)
+        if ev.cls is not None:
+            bases = self.prog.exception_bases(ev.cls) if self.prog else [ev.cls]
+            return any(n in bases for n in names)
+        if ev.colour == ORD and any(n in ("Exception", "BaseException") for n in names):
+            return True
+        if ev.colour == ASYNC and "BaseException" in names:
+            return True
+        if ev.colour == ASYNC and all("Exception" in (self.prog.exception_bases(n) if self.prog else [n]) for n in names):
+            return False
+        return None
 
     def e_Attribute(self, e, state, ctx):
         oks, excs = self.ev(e.value, state, ctx)
@@ -1216,6 +1277,14 @@ class Interp:
             kwargs = {}
             for k, v in zip(e.keywords, vals[1 + na :]):
                 kwargs[k.arg if k.arg is not None else "**%d" % len(kwargs)] = v
+            if _dotted(e.func) in ("contextlib.closing", "closing") and len(args) == 1:
+                out.append((Closing(args[0]), s))
+                continue
+            if isinstance(e.func, ast.Name) and e.func.id == "isinstance" and len(args) == 2 and isinstance(args[0], ExcVal):
+                verdict = self._isinstance_exc(args[0], args[1])
+                if verdict is not None:
+                    out.append((Const(verdict), s))
+                    continue
             for r in self.dom.call(e, fval, args, kwargs, s):
                 if r[0] == "ok":
                     out.append((r[1], r[2]))
@@ -1386,6 +1455,17 @@ def _cls_name(e):
         return e.id
     if isinstance(e, ast.Attribute):
         return e.attr
+    return None
+
+
+def _dotted(f):
+    parts = []
+    while isinstance(f, ast.Attribute):
+        parts.append(f.attr)
+        f = f.value
+    if isinstance(f, ast.Name):
+        parts.append(f.id)
+        return ".".join(reversed(parts))
     return None
 
 
